@@ -10,13 +10,13 @@ from sa.props._lib_a import (DEFER, Q, CallGraph, ChainWalk, ICModel, RunShape, 
                              aliases, is_const, is_name, known_bool, params, stmt_nodes, sub0, succ_on, targets_values)
 
 PROPERTY = "C02"
-TECHNIQUE = "intra-module call graph no-re-entry + finite-state cell propagation over the CFG"
+TECHNIQUE = "structural: call-graph no-re-entry/no-recursion, cell typestate over CFG, chain-stack walk"
 EXPLANATION = (
-    "(a) On the call+reference graph of defer.py (resolution policy in _lib_a.CallGraph) no function reachable from "
+    "All rules are structural. (a) [call-graph reachability] On the call+reference graph of defer.py (resolution policy in _lib_a.CallGraph) no function reachable from "
     "Deferred._runCallbacks through resolved calls leads back to _runCallbacks: every call site in that closure is an obligation, "
     "the only re-entry is the opaque user callback; the _CONTINUE hand-over pushes the waiting Deferred on the explicit chain "
     "stack processed by the same loop, and waiting for a returned Deferred uses the raw callbacks.append. "
-    "(b) For _inlineCallbacks the registration edge to _gotResultInlineCallbacks closes a cycle; it is decided by a finite-state "
+    "(b) [typestate over every CFG path] For _inlineCallbacks the registration edge to _gotResultInlineCallbacks closes a cycle; it is decided by a finite-state "
     "propagation of (waiting[0], helper pending, fired): the helper re-enters _inlineCallbacks only with waiting[0] false, "
     "waiting[0] is True at every registration, False at the suspending return, re-armed before the back edge, and every return "
     "has either fired the result or left a resumer. The only other cycle allowed is the nested generator/coroutine edge through "
@@ -24,6 +24,11 @@ EXPLANATION = (
     "(c) Deferred.__iter__/__await__ call nothing inside the module. (d) No function in the resolved-call closure of either engine can "
     "reach itself, directly or mutually (a recursion there walks _chainedTo/callbacks links, i.e. the chain length). Not decided: stack used by user code; chainDeferred chains."
 )
+RULE_KINDS = {
+    # call-graph reachability / no-recursion closure, CFG dominance, the (cell, pending, fired) typestate propagated over every path of
+    # _inlineCallbacks, and the symbolic chain-stack walk: all for-all-paths verdicts on the code, nothing evaluated on sample inputs
+    "*": "structural",
+}
 ASSUMPTIONS = [
     "method calls on arbitrary receivers are resolved by name against Deferred and its in-module subclasses (over-approximation)",
     "calls through builtins / imported helpers (Failure, warnAboutFunction, getattr, isinstance, type, context.run) do not call back "
